@@ -165,8 +165,11 @@ def semantic_check(cirq, rng, ops_in, ops_out, contract='same'):
     """Gallina boolean comparing two flattened operation lists; returns (expr, kind) or raises opsem.Unsupported."""
     if contract == 'drop_terminal':
         # documented: "identity or X gates in place of terminal measurements": measuring the same qubits plainly reproduces the records
-        ops_out = list(ops_out) + [cirq.MeasurementGate(len(op.qubits), key=op.gate.key, qid_shape=cirq.qid_shape(op)).on(*op.qubits)
-                                   for op in ops_in if isinstance(op.gate, cirq.MeasurementGate)]
+        dropped = multiset_missing([op for op in ops_in if isinstance(op.gate, cirq.MeasurementGate)], list(ops_out))
+        kept_keys = {str(op.gate.key) for op in ops_out if isinstance(op.gate, cirq.MeasurementGate)}
+        if any(str(op.gate.key) in kept_keys for op in dropped):
+            raise opsem.Unsupported('drop_terminal_measurements: a repeated key is partly retained (ignored tag): record order is not defined by the contract')
+        ops_out = list(ops_out) + [cirq.MeasurementGate(len(op.qubits), key=op.gate.key, qid_shape=cirq.qid_shape(op)).on(*op.qubits) for op in dropped]
         contract = 'same'
     qs_in = sorted({q for op in ops_in for q in op.qubits})
     extra = sorted({q for op in ops_out for q in op.qubits} - set(qs_in))
@@ -685,7 +688,10 @@ def run_case(ctx, cirq, cfg, circuit, kind, deep, ignore, checks, case_no):
             ctx.count(cfg.id + ':documented-error', [rep['circuit'], deep, ignore], False)
             return
         import traceback
-        ctx.violation(f'{cfg.name}:raises:{type(e).__name__}:{error_class(str(e))}', f'{cfg.id} raised {type(e).__name__}: {str(e)[:300]} (deep={deep}, ignore={ignore}) on\n{circuit}',
+        sig = f'{cfg.name}:raises:{type(e).__name__}:{error_class(str(e))}'
+        if subcircuit_unitary_raises(cirq, circuit):
+            sig = 'gate-defect:subcircuit-unitary-raises'
+        ctx.violation(sig, f'{cfg.id} raised {type(e).__name__}: {str(e)[:300]} (deep={deep}, ignore={ignore}) on\n{circuit}',
                       dict(kind='raises', error=traceback.format_exc()[-1500:], **rep))
         return
     # (v) the argument is not modified
@@ -806,6 +812,9 @@ def report(ctx, checks, failed):
             c = d['semantics']
             cfg = c['cfg']
             sig = f'{cfg.name}:semantics:{c["stream"].split(":")[-1]}:{signature_features(c["rep"])}'
+            gd = [x for x in signature_features(c['rep']).split('+') if x.startswith('decompose-disagrees-with-unitary:')]
+            if gd:
+                sig = 'gate-defect:' + gd[0]
             what = (f'{cfg.id}: the output does not mean the same as the input ({c["stream"].split(":")[-1]} compared through the reference semantics, '
                     f'contract={cfg.contract}); {c["desc"]}\noutput:\n{c["rep"]["output_diagram"][:600]}')
             ctx.disagree(f'validation:{c["stream"]}', what, sig, what, dict(kind='semantics', **c['rep']))
@@ -870,13 +879,27 @@ def decompose_defect(cirq, ops):
     return None
 
 
+def subcircuit_unitary_raises(cirq, circuit):
+    """a CircuitOperation of the input that claims a unitary but whose cirq.unitary raises (defect of CircuitOperation, C12)"""
+    for op in circuit.all_operations():
+        if isinstance(op.untagged, cirq.CircuitOperation):
+            try:
+                if cirq.has_unitary(op):
+                    cirq.unitary(op)
+            except Exception:
+                return True
+            if subcircuit_unitary_raises(cirq, op.untagged.circuit):
+                return True
+    return False
+
+
 def root_cause(cirq, cfg, circuit, out, deep):
     """Features of a failing case, computed on the real input/output, that name a recorded defect class (part of the signature)."""
     f = []
     ops_in, ops_out = flatten_ops(cirq, circuit), flatten_ops(cirq, out)
     if key_order(cirq, ops_in, ops_out):
         f.append('per-key-measurement-order-changed')
-    if not deep and cfg.name == 'drop_diagonal_before_measurement' and \
+    if cfg.name == 'drop_diagonal_before_measurement' and \
             any(isinstance(op.untagged, cirq.CircuitOperation) and cirq.is_measurement(op) for op in circuit.all_operations()):
         f.append('measurement-inside-subcircuit')
     for m in circuit:
@@ -885,6 +908,16 @@ def root_cause(cirq, cfg, circuit, out, deep):
             if gone:
                 f.append('gateless-op-in-cphase-moment-dropped')
                 break
+    if cfg.name == 'defer_measurements':
+        n_inst = {}
+        for o in ops_in:
+            if isinstance(o.gate, cirq.MeasurementGate):
+                n_inst[str(o.gate.key)] = n_inst.get(str(o.gate.key), 0) + 1
+        for o in ops_in:
+            for cnd in getattr(o.untagged, 'classical_controls', ()):
+                if isinstance(cnd, cirq.BitMaskKeyCondition) and n_inst.get(str(cnd.key), 0) > 1 and cnd.index not in (-1, n_inst[str(cnd.key)] - 1):
+                    f.append('bitmask-condition-index-ignored')
+        f[:] = sorted(set(f))
     if cfg.cat == 'reorder':
         ref = cfg.reference(circuit, deep) if cfg.reference else ops_in
         ref = flatten_ops(cirq, cirq.Circuit(ref)) if cfg.reference else ref
@@ -898,7 +931,7 @@ def root_cause(cirq, cfg, circuit, out, deep):
         touches = lambda k: (lambda o: k in cirq.measurement_key_objs(o) or k in cirq.control_keys(o))
         if any(proj(ref, touches(k)) != proj(ops_out, touches(k)) for k in keys) and 'per-key-measurement-order-changed' not in f:
             f.append('per-key-order-changed')
-    if cfg.name in ('expand_composite', 'optimize_for_target_gateset', 'map_operations', 'map_operations_and_unroll'):
+    if cfg.name in ('expand_composite', 'optimize_for_target_gateset', 'map_operations', 'map_operations_and_unroll', 'merge_k_qubit_unitaries'):
         g = decompose_defect(cirq, ops_in)
         if g:
             f.append(f'decompose-disagrees-with-unitary:{g}')
